@@ -5,7 +5,9 @@ import (
 	"bytes"
 	"crypto/sha256"
 	"encoding/hex"
+	"errors"
 	"fmt"
+	"io"
 	"os"
 	"os/exec"
 	"path/filepath"
@@ -85,6 +87,74 @@ func hashOutput(c *Case, reverse bool) (string, error) {
 	}
 	h := sha256.Sum256(res.Bytes())
 	return hex.EncodeToString(h[:]), nil
+}
+
+// chunkCopyHash re-writes the chunks of a file into a fresh Writer through the chunk-level calls
+// (WriteChunkWithIndexes with the chunk records and message indexes as lexed, channels not registered on
+// the new writer - what a tool that copies whole chunks between files does) and hashes the output.
+func chunkCopyHash(c *Case, data []byte) (string, int, error) {
+	lexer, err := mcap.NewLexer(bytes.NewReader(data), &mcap.LexerOptions{SkipMagic: c.K.SkipMagic, EmitChunks: true})
+	if err != nil {
+		return "", 0, err
+	}
+	var out bytes.Buffer
+	w, err := mcap.NewWriter(&out, &mcap.WriterOptions{IncludeCRC: true, Chunked: true, ChunkSize: 1 << 20})
+	if err != nil {
+		return "", 0, err
+	}
+	if err := w.WriteHeader(&mcap.Header{Profile: "copy"}); err != nil {
+		return "", 0, err
+	}
+	var cur *mcap.Chunk
+	var idx []*mcap.MessageIndex
+	chunks := 0
+	flush := func() error {
+		if cur == nil {
+			return nil
+		}
+		chunks++
+		err := w.WriteChunkWithIndexes(cur, idx)
+		cur, idx = nil, nil
+		return err
+	}
+	for {
+		tt, rec, err := lexer.Next(nil)
+		if err != nil {
+			if errors.Is(err, io.EOF) {
+				break
+			}
+			return "", 0, err
+		}
+		switch tt {
+		case mcap.TokenChunk:
+			if err := flush(); err != nil {
+				return "", 0, err
+			}
+			ch, err := mcap.ParseChunk(append([]byte(nil), rec...))
+			if err != nil {
+				return "", 0, err
+			}
+			cur = ch
+		case mcap.TokenMessageIndex:
+			mi, err := mcap.ParseMessageIndex(append([]byte(nil), rec...))
+			if err != nil {
+				return "", 0, err
+			}
+			idx = append(idx, mi)
+		case mcap.TokenDataEnd:
+			if err := flush(); err != nil {
+				return "", 0, err
+			}
+		}
+	}
+	if err := flush(); err != nil {
+		return "", 0, err
+	}
+	if err := w.Close(); err != nil {
+		return "", 0, err
+	}
+	h := sha256.Sum256(out.Bytes())
+	return hex.EncodeToString(h[:]), chunks, nil
 }
 
 // readersDigest hashes what the lexer and both iterators return for a file.
@@ -264,6 +334,26 @@ func RunC13(ctx *core.Ctx, rep *core.Report) {
 		}
 		if i%60 == 0 {
 			rep.Sample(map[string]any{"case": i, "shape": c.Shape.String(), "config": c.K.String(), "sha256": a})
+		}
+		// chunk-level copy of the same content: three times, same bytes each time
+		if c.K.Chunked && i%3 == 0 {
+			res := drive.RunWriter(c.W, c.K, drive.NewSink(), nil)
+			var hs []string
+			for k := 0; k < 3; k++ {
+				h, chunks, err := chunkCopyHash(c, res.Bytes())
+				if err != nil {
+					rep.Violate("chunk-copy-failed", fmt.Sprintf("%s: copying the chunks of the file through WriteChunkWithIndexes failed: %v", c.Describe(), err), c.Witness())
+					return
+				}
+				if k == 0 {
+					rep.Count("chunk_copy_runs", 1)
+					rep.Count("chunks_copied", int64(chunks))
+				}
+				hs = append(hs, h)
+			}
+			if hs[0] != hs[1] || hs[0] != hs[2] {
+				rep.Violate("not-reproducible", fmt.Sprintf("%s: three identical chunk-level copies (WriteChunkWithIndexes) of the file gave different output (%s %s %s)", c.Describe(), hs[0][:16], hs[1][:16], hs[2][:16]), c.Witness())
+			}
 		}
 	})
 	// (b)
